@@ -35,7 +35,7 @@ import (
 func init() {
 	core.RegisterMeta("C14", core.Meta{
 		Rule: "CRL models (0–300 entries; duplicate serials with different times; serials 0, negative, up to 2^159 and beyond; v1/v2; optional nextUpdate; CRL number 0…2^62, " +
-			"AKID, unknown critical and non-critical list extensions; entry extensions) encoded by the harness's own DER writer (≈80 %) or by zcrypto's CreateCRL (≈20 %), " +
+			"AKID, unknown critical and non-critical list extensions; entry extensions; issuer names of their own for 3 in 4 hand-written CRLs: multi-valued RDNs, sorted and unsorted SETs, repeated types, unknown OIDs, Printable/UTF8/IA5/T61/BMP strings, INTEGER and OCTET STRING values, empty SETs) encoded by the harness's own DER writer (≈80 %) or by zcrypto's CreateCRL (≈20 %), " +
 			"parsed by x509.ParseDERCRL, each queried with 8 certificates (first/last/duplicated/middle listed serial, negated twin, neighbour, absent, zero) " +
 			"through CheckCRLForCert with and without a first-occurrence cache; non-trivial = CRL parsed and the query was decided by both paths; " +
 			"distinct = hash of (CRL bytes, query serial)",
@@ -48,6 +48,7 @@ func init() {
 			"revocation time of a certificate that is not listed is not constrained by the statement (counted, not asserted)",
 			"CRL numbers above the int range are outside the field's domain: only absence of a crash is observed for them",
 			"signature algorithm / value copies and AuthKeyID are not part of the statement: mismatches are counted as soft_* counters only",
+			"issuer copy: the RDNSequence handed out by the result (ToRDNSequence and OriginalRDNS) must have the CRL's RDN count and, per RDN, the same multiset of (type, value); its re-marshalled bytes must equal the issuer bytes written when every value is in a reproducible form and every SET was written in DER order; reordering by DER SET sorting and string types a re-marshal cannot reproduce (IA5, T61, BMP, ASCII in UTF8String) are counted only",
 		},
 	}, runC14)
 }
